@@ -26,7 +26,8 @@ RULE = ('arrangements of 2-3 applications (incl. the module default application)
         'use after the nested call, an application constructed while another is serving or (with its own errors_map) between requests, request errors mapped through the configuration (oversized bodies, HTML and JSON clients, per-application 413 handlers) in strictly alternating order, attributes assigned on the config object of one application (debug, max_body_size, domain_map) and a custom reason phrase set on the response of one application, each followed by ordinary requests; on one thread, and on two '
         'threads (one application each) with every schedule of at most one preemption. Non-trivial = another application or request object was '
         'touched between two reads; distinct = distinct (arrangement, parameters, schedule).')
-REQUIRED = ['settings_arrangements', 'mapped_error_scenarios', 'scenarios_run', 'alternating_held', 'reads_compared', 'responses_compared', 'threaded_runs', 'counterfactual_reruns',
+PYOPT = {'quick': 1, 'thorough': 1}     # one unit of every kind is also served by an interpreter started with -O (assert statements compiled out)
+REQUIRED = ['units_run_under_python_-O', 'settings_arrangements', 'mapped_error_scenarios', 'scenarios_run', 'alternating_held', 'reads_compared', 'responses_compared', 'threaded_runs', 'counterfactual_reruns',
             'nested_scenarios', 'copy_scenarios', 'construct_scenarios', 'default_app_involved']
 ASSUMPTIONS = ['what a handler is shown is observed by value (path, query, header, cookie, body, url_args; status/headers/cookies of the final response)',
                'the counterfactual repair (accessors rebound to per-instance stores) is harness-side and only used to attribute a deviation to the known mechanism']
@@ -188,6 +189,12 @@ class World:
             return 'len=%d' % len(app.request.body.read())
         app.route('/up', 'POST', upload)
 
+        def encoded(x):
+            # text in pieces, encoded by the framework with the charset this application's handler chose
+            app.response.content_type = 'text/plain; charset=' + CHARSETS[n]
+            return iter(['caf\xe9 ', n, ' \xfc ', x]) if n != 'B' else ['caf\xe9 ', n, ' \xfc ', x]
+        app.route('/enc/<x>', 'GET', encoded)
+
         def on_413(err):
             # what this application's response object shows while its own error is rendered
             W.reads.append((n, 'err413', ('headers', tuple(sorted(dict(app.response.headers).items())), app.response.status_code, app.request.query_string)))
@@ -214,6 +221,24 @@ class World:
         self.nested = []
         self.made = []
         self.script = {}
+
+
+CHARSETS = {'A': 'latin1', 'B': 'utf-8', 'D': 'utf-16-le'}
+
+
+def check_enc(who, idx, resp):
+    m = f'{who}{idx}'
+    if resp.escaped is not None:
+        return [('response', who, 'escaped', repr(resp.escaped), None)]
+    exp = ('caf\xe9 ' + who + ' \xfc ' + m).encode(CHARSETS[who])
+    out = []
+    if resp.code != 200:
+        out.append(('response', who, 'status-of-encoded-body', resp.status, 200))
+    elif resp.body != exp:
+        out.append(('response', who, 'body-encoding', resp.body, exp))
+    if resp.header('Content-Type') != 'text/plain; charset=' + CHARSETS[who]:
+        out.append(('response', who, 'content-type', resp.header('Content-Type'), CHARSETS[who]))
+    return out
 
 
 def resp_key(r):
@@ -247,6 +272,11 @@ def scenarios():
     out.append(('mapped-errors:alternating', 'alternating', [('A', 1, {'req': 'big'}), ('B', 2, {'req': 'big_json'}), ('A', 3, {'req': 'big'}), ('D', 4, {'req': 'big'}),
                                                                ('B', 5, {'req': 'big'}), ('D', 6, {'req': 'big_json'}), ('A', 7, {})]))
     out.append(('mapped-errors:after-ordinary-requests', 'alternating', [('A', 1, {}), ('B', 2, {'req': 'big'}), ('A', 3, {'req': 'big_json'}), ('B', 4, {}), ('A', 5, {'req': 'big'})]))
+    # text bodies given in pieces, every application with a charset of its own
+    out.append(('encoded-bodies:alternating', 'alternating', [('D', 1, {'req': 'enc'}), ('A', 2, {'req': 'enc'}), ('B', 3, {'req': 'enc'}), ('D', 4, {'req': 'enc'}),
+                                                                ('B', 5, {'req': 'enc'}), ('A', 6, {'req': 'enc'}), ('A', 7, {}), ('D', 8, {'req': 'enc'})]))
+    out.append(('encoded-bodies:after-ordinary-requests', 'alternating', [('D', 1, {}), ('A', 2, {'req': 'enc'}), ('B', 3, {}), ('A', 4, {'req': 'enc'}), ('D', 5, {'req': 'enc'}),
+                                                                        ('B', 6, {'req': 'enc'})]))
     # an application with its own errors_map constructed between two requests of another one
     out.append(('construct-with-own-errors-map-between-requests', 'alternating', [('A', 1, {'req': 'big'}), ('NEWCFG', 0, {}), ('A', 2, {'req': 'big'}), ('D', 3, {'req': 'big'}),
                                                                                   ('B', 4, {'req': 'big_json'}), ('A', 5, {})]))
@@ -268,6 +298,17 @@ def run_scenario(W, steps):
             from ombott.request_pkg.errors import BodySizeError
             W.keep = getattr(W, 'keep', [])
             W.keep.append(W.ombott.Ombott({'max_body_size': 8, 'errors_map': {BodySizeError: W.ombott.HTTPError(400, 'mapped by another application')}}))
+            continue
+        if script.get('req') == 'enc':
+            W.reset()
+            m = f'{app_name}{i}'
+            r = call_app(W.apps[app_name], env_for(app_name, i, path='/enc/' + m))
+            nobs += 1
+            devs.extend(check_enc(app_name, i, r))
+            for who, when, val in W.reads:
+                nobs += 1
+                if who != app_name or val != exp_read(who, i, when, path='/enc/' + m):
+                    devs.append(('read', who, when, val, exp_read(who, i, when, path='/enc/' + m)))
             continue
         if script.get('req') in ('big', 'big_json'):
             W.reset()
